@@ -207,10 +207,19 @@ class Interp:
             memo[e.id] = self.rv(last, st) if last is not None else None
             return
 
-    def run(self, env):
+    def run(self, env, start=None, stop=None):
+        """`start`: a CFG element to begin at (instead of the function entry); `stop`: a set of node ids -- reaching any of them as
+        a CFG element ends the path with outcome "stop" (the environment is the one just before that element)."""
         g = self.g
         out = []
-        work = [(g.entry, {"env": dict(env), "memo": {}, "calls": [], "decided": True, "visits": {}, "ret": None})]
+        b0, i0 = g.entry, 0
+        if start is not None:
+            pos = g.position(start)
+            if pos is None:
+                return []
+            b0, i0 = pos
+        stop = set(stop or ())
+        work = [(b0, {"env": dict(env), "memo": {}, "calls": [], "decided": True, "visits": {}, "ret": None, "from": i0})]
         steps = 0
         while work and steps < 20000:
             steps += 1
@@ -220,10 +229,18 @@ class Interp:
                 out.append(Outcome(st["env"], None, st["calls"], False, "loop-bound"))
                 continue
             B = g.blocks[b]
-            for e in B.elems:
+            first = st.pop("from", 0)
+            stopped = False
+            for e in B.elems[first:]:
+                if e.id in stop:
+                    out.append(Outcome(st["env"], None, st["calls"], st["decided"], "stop"))
+                    stopped = True
+                    break
                 self.step(e, st)
                 if e.k == "ReturnStmt":
                     st["ret"] = self.rv(e.children[0], st) if e.children and e.children[0].k != "Null" else None
+            if stopped:
+                continue
             if B.abort:
                 out.append(Outcome(st["env"], None, st["calls"], st["decided"], "abort"))
                 continue
@@ -249,7 +266,7 @@ class Interp:
 
 def _fork(st):
     return {"env": dict(st["env"]), "memo": dict(st["memo"]), "calls": list(st["calls"]), "decided": st["decided"],
-            "visits": dict(st["visits"]), "ret": st["ret"]}
+            "visits": dict(st["visits"]), "ret": st["ret"]}        # "from" applies to the first block only
 
 
 def binop(op, a, b, ti):
